@@ -12,6 +12,11 @@ def stress(ctx, binary, rounds, tag):
         ctx.violation("data race reported by the race detector while independent builders mock disjoint targets: " + o[:1500],
                       {"family": "conc", "kind": "race", "tail": o[:3000]})
         return None
+    if "VERIF-HANG" in o:
+        blocked = [ln for ln in o.splitlines() if "memory." in ln or "patch." in ln][:12]
+        ctx.violation("independent builders over disjoint targets deadlocked: a round of apply/re-stub/reset did not reach quiescence (%s): %s" % (tag, blocked),
+                      {"family": "conc", "kind": "deadlock", "run": tag, "blocked_in": blocked, "tail": o[:6000]})
+        return None
     if rc != 0 or not os.path.exists(out):
         ctx.violation("concurrent mockers/callers crashed: " + o[-900:], {"family": "conc", "kind": "crash", "tail": o[-2500:]})
         return None
@@ -42,7 +47,11 @@ def run(ctx):
     q = ctx.quick()
     r = ctx.tlc("MC_Conc", "MC_Conc.cfg", workers=8, timeout=900, constants=None if q else {"Procs": "{1, 2, 3}", "PageOf": "<- PO3"},
                 tag="lock protocol, every interleaving")
-    ctx.note("Conc: %d states; MutexP MutexM XAlways WOnlyInM Quiescent hold" % r["distinct"])
+    ctx.note("Conc: %d states; MutexP MutexM XAlways WOnlyInM NoReadWhileWrite Quiescent hold, no deadlock" % r["distinct"])
+    # model self-test: a nested read side of the RWMutex (RDepth = 2) must deadlock against a waiting writer
+    r0 = ctx.tlc("MC_Conc", "MC_Conc.cfg", workers=4, timeout=600, constants={"RDepth": "2"}, expect_violation=True, tag="self-test: nested RLock deadlocks")
+    if "Deadlock reached" not in r0["out"]:
+        raise vlib.Broken("Conc with a nested read lock does not deadlock: the reader/writer model is vacuous")
     race = drv_binary(ctx, race=True)
     lines = stress(ctx, race, 40 if q else 600, "race detector on")
     plain = drv_binary(ctx)
@@ -60,7 +69,7 @@ def run(ctx):
         if r2["rc"] == 0:
             raise vlib.Broken("Trace_Conc accepted a trace with write phases out of order: the trace spec does not bind")
         ctx.note("Trace_Conc accepted the recorded traces and rejected the corrupted copy")
-    ctx.cov["rule"] = ("3 mocker goroutines (own builder, own target; targets adjacent in one code page) x rounds of apply/call/re-stub/call/"
+    ctx.cov["rule"] = ("4 mocker goroutines (own builder, own target: three plain functions adjacent in one code page and one instantiation of a generic function, whose wrapper scan reads text outside the patch lock) x rounds of apply/call/re-stub/call/"
                        "reset/call with seeded yields, 3 callers hammering a steadily mocked method whose callback calls the origin "
                        "placeholder; every hook event inside a critical section must be an enabled action of Conc; image + page "
                        "permissions checked at every quiescence; once under the race detector, once without")
